@@ -1,7 +1,7 @@
 //vp:property C10
 //vp:pkg ./tsdb/chunkenc
 //vp:roots ./model/value
-//vp:budget paths=3000000 wall_s=420
+//vp:budget paths=3000000 wall_s=900
 //vp:concretize (*github.com/prometheus/prometheus/tsdb/chunkenc.bstream).writeBits:nbits (*github.com/prometheus/prometheus/tsdb/chunkenc.bstream).writeBitsFast:nbits (*github.com/prometheus/prometheus/tsdb/chunkenc.bstreamReader).readBits:nbits (*github.com/prometheus/prometheus/tsdb/chunkenc.bstreamReader).readBitsFast:nbits (*github.com/prometheus/prometheus/tsdb/chunkenc.bstreamReader).loadNextBuffer:nbits
 //vp:bounds bounded from empty through the public API (NewXORChunk/NewXOR2Chunk, Appender, Append, Iterator): profiles of N appends of (st, t, v) with strictly increasing t in [-2^62, 2^62], float64 values as arbitrary bit patterns, arbitrary st (XOR2)
 //vp:bounds quick: A = 2 samples, first t in [-64,64), second sample arbitrary; B = 3 samples, first t in [0,64), first delta in [1,64), v1==v0 (so the third sample meets every delta-of-delta class and every value class with an empty window), third sample arbitrary
